@@ -100,7 +100,7 @@ def oracle_runs(cfg, sel):
                     ex_sig = (G.freeze([G.canon_ival_raw(v) for v in exec_level_marked(rlevels[:5])]),
                               G.freeze([[G.canon_scalar_raw(z) for z in last_defined(vlevels[:4], k, d)]
                                         for k, d in zip(G.VARKEYS, [[""], [1], [""], [None]])]),
-                              tuple(sorted((k, repr(last_defined(rlevels[:5], k, d))) for k, d in
+                              tuple(sorted((k, repr(unordered(last_defined(rlevels[:5], k, d)))) for k, d in
                                            (("max_invocation_time", -1), ("retries_after_failure", 0), ("env", {})))))
                     for cores in last_defined(vlevels, "cores", [1]):
                         for inp in last_defined(vlevels, "input_sizes", [""]):
@@ -137,6 +137,11 @@ def exec_level_marked(levels):
     return out
 
 
+def unordered(v):
+    """an env map compares without regard to the order its names were written in"""
+    return dict(sorted(v.items())) if isinstance(v, dict) else v
+
+
 def project(key):
     """projection of a full canonical key (impl / model) to the oracle's tuple"""
     (ename, erd, evars, prof, sname, bname, cmd, extra, rd, bvars, cores, inp, var, tag, mach) = key
@@ -148,7 +153,7 @@ def project(key):
     ex_sig = (tuple(erd[:3]), evars,
               tuple(sorted([("max_invocation_time", repr(erd[4][0] if erd[4] else None)),
                             ("retries_after_failure", repr(erd[7][0] if erd[7] else None)),
-                            ("env", repr({s(k): s(v) for k, v in erd[8][0]} if erd[8] else None))])))
+                            ("env", repr(dict(sorted((s(k), s(v)) for k, v in erd[8][0])) if erd[8] else None))])))
     return (s(ename), s(sname), s(bname), s(cmd), (s(extra[0]) if extra else None), cores, inp, var, tag,
             (s(mach[0]) if mach else None), iv(rd[0]), iv(rd[1]), iv(rd[2]),
             rd[4][0] if rd[4] else None, rd[7][0] if rd[7] else None,
